@@ -808,6 +808,24 @@ func genCase(c *h.Ctx, r *h.Rng, nq int) []string {
 			add("hb_bucket", fmt.Sprintf("a:%s,le:%s", as[i], le), "counter")
 		}
 	}
+	// further classic histograms (a=z0..z11), each with a degenerate bucket layout: only +Inf, +Inf under several spellings
+	// (they coalesce into one bucket), one finite bucket, equal bounds spelled differently, NaN / unparsable /
+	// negative bounds, no +Inf bucket
+	{
+		shapes := [][]string{
+			{"+Inf"}, {"+Inf", "Inf"}, {"+Inf", "Inf", "+inf", "Infinity"}, {"1"}, {"1", "1.0", "1e0", "+Inf"},
+			{"1", "1.0"}, {"NaN", "+Inf"}, {"bad", "+Inf"}, {"-1", "-0.5", "+Inf"}, {"0.1", "1", "10"},
+			{"-Inf", "+Inf"}, {"0", "-0", "+Inf"},
+		}
+		for i, sh := range shapes {
+			if r.Chance(25) {
+				continue
+			}
+			for _, le := range sh {
+				add("hb_bucket", fmt.Sprintf("a:z%d,le:%s", i, le), "counter")
+			}
+		}
+	}
 	for i := 0; i < 2; i++ {
 		add("nh", "a:"+as[i], "hist")
 		add("mix", "a:"+as[i], "mixed")
@@ -878,6 +896,17 @@ func genCase(c *h.Ctx, r *h.Rng, nq int) []string {
 		ops = append(ops, fmt.Sprintf("rq %s %d %d %d %s", eng, start, end, step, h.HexS(qs)))
 	}
 
+	// every case: the histogram functions over the classic histograms (degenerate layouts included), instant at
+	// a time where the counters are non-zero and as a range
+	for _, qs := range []string{
+		`histogram_quantile(0.5, hb_bucket)`, `histogram_quantile(0.9, rate(hb_bucket[2m]))`,
+		`histogram_quantile(0.5, sum by(le)(hb_bucket))`, `histogram_quantile(1, hb_bucket{a=~"z.*"})`,
+		`histogram_quantile(0, hb_bucket{a=~"z.*"})`, `histogram_quantile(NaN, hb_bucket)`,
+		`histogram_quantiles(hb_bucket, "q", 0.1, 0.5, 0.99)`, `histogram_fraction(0, 1, hb_bucket)`,
+	} {
+		ops = append(ops, fmt.Sprintf("iq main %d %s", g.t0+55000, h.HexS(qs)))
+		ops = append(ops, fmt.Sprintf("rq main %d %d %d %s", g.t0, g.t1, (g.t1-g.t0)/7+1, h.HexS(qs)))
+	}
 	for k := 0; k < nq; k++ {
 		var qs string
 		g.nIll = 0
